@@ -273,6 +273,13 @@ def flush():
 
 def pytest_configure(config):
     install()
+    try:        # recording slows the calls down: no hypothesis deadlines (explicit @settings still win)
+        from hypothesis import settings
+
+        settings.register_profile("verif-recorder", deadline=None)
+        settings.load_profile("verif-recorder")
+    except Exception:  # noqa
+        pass
 
 
 def pytest_runtest_setup(item):
